@@ -9,8 +9,11 @@
 //!       with an allocation budget (a diverging call aborts the child, not the check)
 //!   S : connected_components, strongly_connected_components, minimum_spanning_tree/forest,
 //!       kcore_decomposition, count_triangles/clustering, biconnected_components/bridges/articulation
+//!   B : the U / W / S / M batteries on graphs put into the engine through the other construction paths
+//!       (batch_create_nodes + batch_create_edges; "churn": batches with decoys, batch_update_nodes, update_edge,
+//!       delete_edge, create_node_with_labels hub removed by batch_delete_nodes -> delete_node)
 use graph_engine::{
-    AStarConfig, BiconnectedConfig, Binding, CommunityConfig, Direction, Edge, EdgePattern, GraphEngine, GraphError, HeuristicFn, KCoreConfig, MstConfig, Node, NodePattern, PathPattern, Pattern,
+    AStarConfig, AllPathsConfig, BiconnectedConfig, EdgeInput, NodeInput, Pagination, Binding, CommunityConfig, Direction, Edge, EdgePattern, GraphEngine, GraphError, HeuristicFn, KCoreConfig, MstConfig, Node, NodePattern, PathPattern, Pattern,
     PropertyValue, SccConfig, TraversalFilter, TriangleConfig, VariableLengthConfig,
 };
 use graph_engine::CompareOp;
@@ -129,8 +132,48 @@ impl EL {
     }
 }
 
+/// How the graph under test is put into the engine. Every construction path must yield the same graph.
+#[derive(Clone, Copy, Debug, PartialEq, Eq, PartialOrd, Ord)]
+enum Build {
+    /// create_node per node, create_edge per edge (edges removed again with delete_edge along the DFS)
+    Step,
+    /// batch_create_nodes (one call), all edges of the graph in one batch_create_edges call, removed with batch_delete_edges
+    Batch,
+    /// nodes: one batch_create_nodes call together with decoy nodes (>= 100 inputs in the `big` variant = the engine's
+    /// parallel branch), idx property set afterwards through batch_update_nodes, decoys removed with batch_delete_nodes;
+    /// edges: one batch_create_edges call holding the real edges (placeholder weight, corrected afterwards with
+    /// update_edge incl. removal via Null), a decoy twin per real edge (removed with delete_edge) and decoy edges to a
+    /// hub node made with create_node_with_labels (removed with batch_delete_nodes -> delete_node)
+    Churn,
+}
+const ALT_BUILDS: [Build; 2] = [Build::Batch, Build::Churn];
+impl Build {
+    fn name(self) -> &'static str {
+        match self {
+            Build::Step => "create_edge",
+            Build::Batch => "batch_create_edges",
+            Build::Churn => "batch+update_edge+delete_edge+delete_node",
+        }
+    }
+    fn tag(self) -> &'static str {
+        match self {
+            Build::Step => "step",
+            Build::Batch => "batch",
+            Build::Churn => "churn",
+        }
+    }
+    fn from_tag(s: &str) -> Build {
+        match s {
+            "batch" => Build::Batch,
+            "churn" => Build::Churn,
+            _ => Build::Step,
+        }
+    }
+}
+
 struct Ctx {
     eng: GraphEngine,
+    build: Build,
     n: usize,
     nid: Vec<u64>,
     nodes: Vec<Node>,
@@ -139,56 +182,227 @@ struct Ctx {
     eids: Vec<u64>,
     edges: Vec<Edge>,
     calls: u64,
+    /// (alternative builds) the engine does not hold the nodes that were requested
+    node_defect: Option<String>,
+}
+fn node_props(idx: i64, i: usize) -> HashMap<String, PropertyValue> {
+    // x/y: coordinates for astar_path_euclidean / astar_path_manhattan (node i sits at (i, 0))
+    let mut p = HashMap::new();
+    p.insert("idx".to_string(), PropertyValue::Int(idx));
+    p.insert("x".to_string(), PropertyValue::Float(i as f64));
+    p.insert("y".to_string(), PropertyValue::Int(0));
+    p
+}
+fn edge_props(l: EL, weight: Option<PropertyValue>) -> HashMap<String, PropertyValue> {
+    let mut p = HashMap::new();
+    p.insert("t".to_string(), PropertyValue::String(ty_str(l.ty).to_string()));
+    if let Some(w) = weight {
+        p.insert("weight".to_string(), w);
+    }
+    p
 }
 impl Ctx {
     fn new(n: usize) -> Ctx {
+        Ctx::with_build(n, Build::Step, false)
+    }
+    /// `big`: (Churn only) put >= 100 decoy nodes into the node batch so that batch_create_nodes takes its parallel branch
+    fn with_build(n: usize, build: Build, big: bool) -> Ctx {
         let eng = GraphEngine::new();
-        let mut nid = vec![];
+        let mut calls = 0u64;
+        let nid: Vec<u64> = match build {
+            Build::Step => (0..n)
+                .map(|i| {
+                    calls += 1;
+                    eng.create_node("N", node_props(i as i64, i)).expect("create_node")
+                })
+                .collect(),
+            Build::Batch => {
+                calls += 1;
+                let r = eng.batch_create_nodes((0..n).map(|i| NodeInput::new(vec!["N".to_string()], node_props(i as i64, i))).collect()).expect("batch_create_nodes");
+                assert!(r.count == n && r.created_ids.len() == n, "batch_create_nodes returned {} ids for {n} inputs", r.created_ids.len());
+                r.created_ids
+            }
+            Build::Churn => {
+                // decoys before, between and behind the real nodes; real nodes start with a wrong idx
+                let per_gap = if big { 100 / (n + 1) + 1 } else { 1 };
+                let mut inputs = vec![];
+                let mut real_pos = vec![];
+                let mut decoy_pos = vec![];
+                for i in 0..=n {
+                    for _ in 0..per_gap {
+                        decoy_pos.push(inputs.len());
+                        inputs.push(NodeInput::new(vec!["N".to_string(), "Decoy".to_string()], node_props(-7, 50)));
+                    }
+                    if i < n {
+                        real_pos.push(inputs.len());
+                        inputs.push(NodeInput::new(vec!["N".to_string()], node_props(50 + i as i64, i)));
+                    }
+                }
+                let total = inputs.len();
+                assert!(!big || total >= 100);
+                let r = eng.batch_create_nodes(inputs).expect("batch_create_nodes");
+                assert!(r.count == total && r.created_ids.len() == total, "batch_create_nodes returned {} ids for {total} inputs", r.created_ids.len());
+                let nid: Vec<u64> = real_pos.iter().map(|p| r.created_ids[*p]).collect();
+                let upd = nid
+                    .iter()
+                    .enumerate()
+                    .map(|(i, id)| {
+                        let mut p = HashMap::new();
+                        p.insert("idx".to_string(), PropertyValue::Int(i as i64));
+                        (*id, None, p)
+                    })
+                    .collect();
+                assert_eq!(eng.batch_update_nodes(upd).expect("batch_update_nodes"), n);
+                let del = eng.batch_delete_nodes(decoy_pos.iter().map(|p| r.created_ids[*p]).collect()).expect("batch_delete_nodes");
+                assert!(del.failed.is_empty() && del.count == decoy_pos.len(), "batch_delete_nodes failed: {:?}", del.failed);
+                calls += 3;
+                nid
+            }
+        };
         let mut nodes = vec![];
         let mut nidx = HashMap::new();
-        for i in 0..n {
-            let mut p = HashMap::new();
-            p.insert("idx".to_string(), PropertyValue::Int(i as i64));
-            let id = eng.create_node("N", p).expect("create_node");
-            nidx.insert(id, i);
-            nid.push(id);
-            nodes.push(eng.get_node(id).expect("get_node"));
+        let mut node_defect = None;
+        for (i, id) in nid.iter().enumerate() {
+            let node = eng.get_node(*id).expect("get_node");
+            if !(node.properties.get("idx") == Some(&PropertyValue::Int(i as i64)) && node.labels == vec!["N".to_string()]) {
+                node_defect = Some(format!("node n{i} is stored as {node:?}"));
+            }
+            nidx.insert(*id, i);
+            nodes.push(node);
         }
-        Ctx { eng, n, nid, nodes, nidx, labels: vec![], eids: vec![], edges: vec![], calls: 0 }
+        if eng.node_count() != n {
+            node_defect = Some(format!("node_count() = {} after building {n} node(s)", eng.node_count()));
+        }
+        assert!(build != Build::Step || node_defect.is_none(), "engine stored different nodes than requested: {node_defect:?}");
+        calls += n as u64 + 1;
+        Ctx { eng, build, n, nid, nodes, nidx, labels: vec![], eids: vec![], edges: vec![], calls, node_defect }
     }
-    fn fresh(n: usize, labels: &[EL]) -> Ctx {
-        let mut c = Ctx::new(n);
-        for l in labels {
-            c.push(*l);
+    /// Err = the engine does not hold the edge that was requested (for the alternative builds this is reported as a violation)
+    fn record(&mut self, l: EL, id: u64) -> Result<(), String> {
+        self.calls += 1;
+        let e = self.eng.get_edge(id).map_err(|e| format!("get_edge({id}) of the edge requested as {}: {e:?}", l.show()))?;
+        if !(e.from == self.nid[l.u as usize] && e.to == self.nid[l.v as usize] && e.directed == l.dir && e.edge_type == ty_str(l.ty)) {
+            return Err(format!("edge requested as {} is stored as from={} to={} directed={} type={}", l.show(), e.from, e.to, e.directed, e.edge_type));
         }
-        c
-    }
-    fn push(&mut self, l: EL) {
-        let mut p = HashMap::new();
-        p.insert("t".to_string(), PropertyValue::String(ty_str(l.ty).to_string()));
-        if let Some(w) = w_prop(l.w) {
-            p.insert("weight".to_string(), w);
+        let wp = e.properties.get("weight").cloned();
+        if wp != w_prop(l.w) {
+            return Err(format!("edge requested as {} is stored with weight property {wp:?}", l.show()));
         }
-        let id = self.eng.create_edge(self.nid[l.u as usize], self.nid[l.v as usize], ty_str(l.ty), p, l.dir).expect("create_edge");
-        let e = self.eng.get_edge(id).expect("get_edge");
-        assert!(e.from == self.nid[l.u as usize] && e.to == self.nid[l.v as usize] && e.directed == l.dir && e.edge_type == ty_str(l.ty), "engine stored a different edge than requested");
         self.labels.push(l);
         self.eids.push(id);
         self.edges.push(e);
-        self.calls += 2;
+        Ok(())
+    }
+    fn push(&mut self, l: EL) {
+        assert!(self.build == Build::Step);
+        let id = self.eng.create_edge(self.nid[l.u as usize], self.nid[l.v as usize], ty_str(l.ty), edge_props(l, w_prop(l.w)), l.dir).expect("create_edge");
+        self.calls += 1;
+        self.record(l, id).unwrap_or_else(|e| panic!("engine stored a different edge than requested: {e}"));
     }
     fn pop(&mut self) {
+        assert!(self.build == Build::Step);
         let id = self.eids.pop().expect("pop");
         self.labels.pop();
         self.edges.pop();
         self.eng.delete_edge(id).expect("delete_edge");
         self.calls += 1;
     }
+    /// (alternative builds) put the whole graph into the empty engine through this context's construction path
+    fn load(&mut self, labels: &[EL]) -> Result<(), String> {
+        assert!(self.labels.is_empty());
+        let nid = self.nid.clone();
+        let input = |l: &EL, w: Option<PropertyValue>| EdgeInput::new(nid[l.u as usize], nid[l.v as usize], ty_str(l.ty), edge_props(*l, w), l.dir);
+        match self.build {
+            Build::Step => {
+                for l in labels {
+                    self.push(*l);
+                }
+            }
+            Build::Batch => {
+                let r = self.eng.batch_create_edges(labels.iter().map(|l| input(l, w_prop(l.w))).collect()).expect("batch_create_edges");
+                assert!(r.count == labels.len() && r.created_ids.len() == labels.len());
+                self.calls += 1;
+                for (l, id) in labels.iter().zip(r.created_ids) {
+                    self.record(*l, id)?;
+                }
+            }
+            Build::Churn => {
+                let n = self.n;
+                let hub = self.eng.create_node_with_labels(vec!["N".to_string(), "Hub".to_string()], node_props(99, 99)).expect("create_node_with_labels");
+                let mut inputs = vec![];
+                let mut real_pos = vec![];
+                let mut twin_pos = vec![];
+                let decoy = |a: u64, b: u64, ty: u8, dir: bool| EdgeInput::new(a, b, ty_str(ty), edge_props(EL { u: 0, v: 0, ty, w: 0, dir }, Some(PropertyValue::Int(0))), dir);
+                // hub decoys: both directed orientations and both stored orientations of an undirected edge, per real node, and a hub self-loop
+                inputs.push(decoy(hub, hub, 0, false));
+                for i in 0..n {
+                    inputs.push(decoy(hub, nid[i], (i % 2) as u8, true));
+                    inputs.push(decoy(nid[i], hub, ((i + 1) % 2) as u8, false));
+                }
+                for (k, l) in labels.iter().enumerate() {
+                    // a decoy twin over the same node pair, stored the other way round, of the other type and directedness
+                    twin_pos.push(inputs.len());
+                    inputs.push(decoy(nid[l.v as usize], nid[l.u as usize], 1 - l.ty, !l.dir));
+                    real_pos.push(inputs.len());
+                    inputs.push(input(l, Some(PropertyValue::Int(7))));
+                    let i = k % n.max(1);
+                    if n > 0 {
+                        inputs.push(decoy(nid[i], hub, (k % 2) as u8, true));
+                        inputs.push(decoy(hub, nid[i], ((k + 1) % 2) as u8, false));
+                    }
+                }
+                let total = inputs.len();
+                let r = self.eng.batch_create_edges(inputs).expect("batch_create_edges");
+                assert!(r.count == total && r.created_ids.len() == total);
+                self.calls += 2;
+                for (l, p) in labels.iter().zip(&real_pos) {
+                    let mut upd = HashMap::new();
+                    upd.insert("weight".to_string(), w_prop(l.w).unwrap_or(PropertyValue::Null));
+                    self.eng.update_edge(r.created_ids[*p], upd).expect("update_edge");
+                    self.calls += 1;
+                }
+                for p in &twin_pos {
+                    self.eng.delete_edge(r.created_ids[*p]).expect("delete_edge");
+                    self.calls += 1;
+                }
+                let del = self.eng.batch_delete_nodes(vec![hub]).expect("batch_delete_nodes");
+                assert!(del.failed.is_empty() && del.count == 1, "batch_delete_nodes(hub) failed: {:?}", del.failed);
+                self.calls += 1;
+                for (l, p) in labels.iter().zip(&real_pos) {
+                    self.record(*l, r.created_ids[*p])?;
+                }
+            }
+        }
+        Ok(())
+    }
+    /// (alternative builds) back to the edgeless graph
+    fn clear(&mut self) {
+        match self.build {
+            Build::Step => {
+                while !self.labels.is_empty() {
+                    self.pop();
+                }
+            }
+            Build::Batch => {
+                let ids: Vec<u64> = self.eids.drain(..).collect();
+                let k = ids.len();
+                let del = self.eng.batch_delete_edges(ids).expect("batch_delete_edges");
+                assert!(del.failed.is_empty() && del.count == k, "batch_delete_edges failed: {:?}", del.failed);
+                self.calls += 1;
+            }
+            Build::Churn => {
+                while let Some(id) = self.eids.pop() {
+                    self.eng.delete_edge(id).expect("delete_edge");
+                    self.calls += 1;
+                }
+            }
+        }
+        self.labels.clear();
+        self.eids.clear();
+        self.edges.clear();
+    }
     fn eidx(&self, id: u64) -> Option<usize> {
         self.eids.iter().position(|x| *x == id)
-    }
-    fn graph_json(&self) -> Value {
-        json!({"n": self.n, "edges": self.labels.iter().map(EL::to_json).collect::<Vec<_>>(), "edges_readable": self.labels.iter().enumerate().map(|(i, l)| format!("e{}: {}", i + 1, l.show())).collect::<Vec<_>>()})
     }
     fn walk_ids(&self, w: &(Vec<usize>, Vec<usize>)) -> (Vec<u64>, Vec<u64>) {
         (w.0.iter().map(|x| self.nid[*x]).collect(), w.1.iter().map(|e| self.eids[*e]).collect())
@@ -198,6 +412,45 @@ impl Ctx {
         let ns: Vec<String> = nodes.iter().map(|x| self.nidx.get(x).map_or(format!("?{x}"), |i| format!("n{i}"))).collect();
         let es: Vec<String> = edges.iter().map(|x| self.eidx(*x).map_or(format!("?{x}"), |i| format!("e{}", i + 1))).collect();
         format!("nodes {ns:?} edges {es:?}")
+    }
+}
+
+fn graph_json(n: usize, labels: &[EL], build: Build) -> Value {
+    json!({"n": n, "build": build.tag(), "built_via": build.name(), "edges": labels.iter().map(EL::to_json).collect::<Vec<_>>(), "edges_readable": labels.iter().enumerate().map(|(i, l)| format!("e{}: {}", i + 1, l.show())).collect::<Vec<_>>()})
+}
+
+/// The graph under enumeration held in an engine through ONE construction path. With Build::Step the engine is edited
+/// edge by edge along the enumeration; with the other builds the label list is kept here and the whole graph is put
+/// into the (empty) engine for each check and removed again afterwards.
+struct Bench {
+    build: Build,
+    ctx: Ctx,
+    cur: Vec<EL>,
+    /// engines used only to attribute a finding made on an alternative build (created when the first one occurs)
+    step_ref: Option<Ctx>,
+    batch_ref: Option<Ctx>,
+}
+impl Bench {
+    fn new(n: usize, build: Build, big: bool) -> Bench {
+        Bench { build, ctx: Ctx::with_build(n, build, big), cur: vec![], step_ref: None, batch_ref: None }
+    }
+    fn push(&mut self, l: EL) {
+        if self.build == Build::Step {
+            self.ctx.push(l);
+        }
+        self.cur.push(l);
+    }
+    fn pop(&mut self) {
+        if self.build == Build::Step {
+            self.ctx.pop();
+        }
+        self.cur.pop();
+    }
+    fn len(&self) -> usize {
+        self.cur.len()
+    }
+    fn calls(&self) -> u64 {
+        self.ctx.calls + self.step_ref.as_ref().map_or(0, |c| c.calls) + self.batch_ref.as_ref().map_or(0, |c| c.calls)
     }
 }
 
@@ -395,17 +648,18 @@ impl GV {
             self.m.insert(sig.to_string(), (1, msg, q));
         }
     }
-    fn flush(self, part: &str, ctx: &Ctx, acc: &mut Acc) {
+    fn flush(self, part: &str, n: usize, labels: &[EL], build: Build, acc: &mut Acc) {
         for (sig, (cnt, msg, q)) in self.m {
             *acc.sig_cases.entry(sig.clone()).or_insert(0) += cnt;
             *acc.sig_graphs.entry(sig.clone()).or_insert(0) += 1;
             let e = acc.arts.entry(sig).or_default();
-            let size = (ctx.labels.len(), ctx.n);
+            let size = (labels.len(), n);
             if e.len() < 3 || size < e.last().unwrap().size {
-                let mut g = ctx.graph_json();
+                let mut g = graph_json(n, labels, build);
                 g["part"] = json!(part);
                 g["query"] = q;
-                e.push(Art { size, msg: format!("{msg}  [graph: {} node(s); {}]", ctx.n, ctx.labels.iter().enumerate().map(|(i, l)| format!("e{}: {}", i + 1, l.show())).collect::<Vec<_>>().join(", ")), replay: g });
+                let via = if build == Build::Step { String::new() } else { format!("; built via {}", build.name()) };
+                e.push(Art { size, msg: format!("{msg}  [graph: {n} node(s); {}{via}]", labels.iter().enumerate().map(|(i, l)| format!("e{}: {}", i + 1, l.show())).collect::<Vec<_>>().join(", ")), replay: g });
                 e.sort_by_key(|a| a.size);
                 e.truncate(3);
             }
@@ -478,8 +732,12 @@ struct Params {
     astar_modes: Vec<Mode>,
     /// edge-property filters worth asking (with one edge type they all degenerate)
     two_types: bool,
-    /// astar: every h in {0,d*}^n (true) or only h=0 and h=d* (false)
+    /// W: the full grid (true: astar with every h in {0,d*}^n, the option variants of astar / find_weighted_path /
+    /// find_all_weighted_paths) or the reduced one of the large multiset spaces (false: astar with h=0 and h=d* only)
     h_full: bool,
+    /// S: also call the thin wrappers (articulation_points, bridges, is_biconnected, is_strongly_connected, kcore_subgraph,
+    /// degeneracy, global_clustering_coefficient) and minimum_spanning_tree with a non-default weight property / default weight
+    wrappers: bool,
 }
 
 // ------------------------------------------------------------------ part U : unweighted path queries
@@ -575,6 +833,24 @@ fn check_u(ctx: &mut Ctx, p: &Params, acc: &mut Acc, gv: &mut GV) {
                     if exp.len() >= 2 {
                         acc.inc("nontrivial", 1);
                     }
+                    // capped variant (max_paths 1, max_parents_per_node 1): whatever comes back must be shortest paths, and not nothing
+                    if from != to && ctx.labels.len() <= 3 {
+                        let capped = ctx.eng.find_all_paths(ctx.nid[from], ctx.nid[to], Some(AllPathsConfig { max_paths: 1, max_parents_per_node: 1 }));
+                        ctx.calls += 1;
+                        acc.inc("find_all_paths(capped).queries", 1);
+                        let qc = json!({"call": "find_all_paths", "from": from, "to": to, "config": {"max_paths": 1, "max_parents_per_node": 1}});
+                        match capped {
+                            Err(e) => gv.add("c18:find_all_paths:capped:missed-path", || (format!("find_all_paths(n{from}, n{to}, max_paths=1, max_parents_per_node=1) = {e:?} but a {d}-hop path exists"), qc)),
+                            Ok(rc) => {
+                                if rc.paths.is_empty() || rc.hop_count != d {
+                                    gv.add("c18:find_all_paths:capped:missed-path", || (format!("find_all_paths(n{from}, n{to}, max_paths=1, max_parents_per_node=1) returned {} path(s), hop_count {} but a {d}-hop path exists", rc.paths.len(), rc.hop_count), qc.clone()));
+                                }
+                                if let Some(x) = rc.paths.iter().find(|x| !exp.contains(&(x.nodes.clone(), x.edges.clone()))) {
+                                    gv.add("c18:find_all_paths:capped:extra-path", || (format!("find_all_paths(n{from}, n{to}, max_paths=1, max_parents_per_node=1) returns {} which is not a shortest directed walk ({d} hops)", ctx.show_walk(&x.nodes, &x.edges)), qc.clone()));
+                                }
+                            }
+                        }
+                    }
                     if got.len() != r.paths.len() {
                         acc.inc("find_all_paths.answers_with_duplicates(info)", 1);
                     }
@@ -616,6 +892,46 @@ fn check_u(ctx: &mut Ctx, p: &Params, acc: &mut Acc, gv: &mut GV) {
                         for to in 0..n {
                             let enter = |x: usize| x == to || nok[x];
                             let full = enum_walks(&ar, from, Some(to), 0, p.hops, !cyc, &enter);
+                            if fs.ef == 0 && fs.nf == -1 && !cyc && ctx.labels.len() <= 3 {
+                                // option variants (graphs with <= 3 edges), widest range only: (a) both edge types listed = no type restriction, (b) max_paths = 1
+                                let exp: BTreeSet<(Vec<u64>, Vec<u64>)> = full.iter().map(|w| ctx.walk_ids(w)).collect();
+                                if ty.is_none() && p.two_types && mode == Mode::Out {
+                                    let cfg = VariableLengthConfig::with_hops(0, p.hops).direction(mode.dir()).edge_types(&["A", "B"]).max_paths(usize::MAX);
+                                    let res = ctx.eng.find_variable_paths(ctx.nid[from], ctx.nid[to], cfg);
+                                    ctx.calls += 1;
+                                    acc.inc("find_variable_paths(edge_types=[A,B]).queries", 1);
+                                    let q = json!({"call": "find_variable_paths", "from": from, "to": to, "min_hops": 0, "max_hops": p.hops, "direction": format!("{mode:?}"), "edge_types": ["A", "B"], "allow_cycles": false});
+                                    match res {
+                                        Ok(r) if !r.stats.truncated => {
+                                            let got: BTreeSet<(Vec<u64>, Vec<u64>)> = r.paths.iter().map(|x| (x.nodes.clone(), x.edges.clone())).collect();
+                                            if got != exp {
+                                                gv.add("c18:find_variable_paths:edge-types-list:wrong-path-set", || (format!("find_variable_paths(n{from}, n{to}, hops 0..={}, {mode:?}, edge_types [A,B]) returns {} path(s), expected {} (every edge has type A or B)", p.hops, got.len(), exp.len()), q));
+                                            }
+                                        }
+                                        Ok(_) => {}
+                                        Err(e) => gv.add("c18:find_variable_paths:unexpected-error", || (format!("{e:?}"), q)),
+                                    }
+                                }
+                                let mut cfg = VariableLengthConfig::with_hops(0, p.hops).direction(mode.dir()).max_paths(1);
+                                if let Some(t) = ty {
+                                    cfg = cfg.edge_type(ty_str(t));
+                                }
+                                let res = ctx.eng.find_variable_paths(ctx.nid[from], ctx.nid[to], cfg);
+                                ctx.calls += 1;
+                                acc.inc("find_variable_paths(max_paths=1).queries", 1);
+                                let q = json!({"call": "find_variable_paths", "from": from, "to": to, "min_hops": 0, "max_hops": p.hops, "direction": format!("{mode:?}"), "edge_type": ty.map(ty_str), "allow_cycles": false, "max_paths": 1});
+                                match res {
+                                    Ok(r) => {
+                                        if r.paths.is_empty() && !exp.is_empty() {
+                                            gv.add("c18:find_variable_paths:capped:missing-path", || (format!("find_variable_paths(n{from}, n{to}, hops 0..={}, {mode:?}, type {:?}, max_paths=1) returns nothing although {} qualifying path(s) exist", p.hops, ty.map(ty_str), exp.len()), q.clone()));
+                                        }
+                                        if let Some(x) = r.paths.iter().find(|x| !exp.contains(&(x.nodes.clone(), x.edges.clone()))) {
+                                            gv.add("c18:find_variable_paths:capped:extra-path", || (format!("find_variable_paths(n{from}, n{to}, hops 0..={}, {mode:?}, type {:?}, max_paths=1) returns {} which is not a qualifying simple walk", p.hops, ty.map(ty_str), ctx.show_walk(&x.nodes, &x.edges)), q.clone()));
+                                        }
+                                    }
+                                    Err(e) => gv.add("c18:find_variable_paths:unexpected-error", || (format!("{e:?}"), q)),
+                                }
+                            }
                             for &(lo, hi) in ranges {
                                 let mut cfg = VariableLengthConfig::with_hops(lo, hi).direction(mode.dir()).allow_cycles(cyc).max_paths(usize::MAX);
                                 if let Some(t) = ty {
@@ -701,6 +1017,22 @@ fn check_u(ctx: &mut Ctx, p: &Params, acc: &mut Acc, gv: &mut GV) {
                         }
                         Err(e) => gv.add("c18:neighbors:unexpected-error", || (format!("{e:?}"), q)),
                     }
+                    // neighbors_paginated, one page that holds everything (asked without property filter and with the first node filter)
+                    if fs.ef == 0 && fs.nf <= 0 && ctx.labels.len() <= 3 {
+                        let res = ctx.eng.neighbors_paginated(ctx.nid[start], ty.map(ty_str), mode.dir(), filter.as_ref(), Pagination::new(0, 1000));
+                        ctx.calls += 1;
+                        acc.inc("neighbors_paginated.queries", 1);
+                        let q = json!({"call": "neighbors_paginated", "node": start, "direction": format!("{mode:?}"), "edge_type": ty.map(ty_str), "filter": fs.show(), "skip": 0, "limit": 1000});
+                        match res {
+                            Ok(pg) => {
+                                let got: BTreeSet<u64> = pg.items.iter().map(|x| x.id).collect();
+                                if got != exp || got.len() != pg.items.len() || pg.has_more {
+                                    gv.add("c18:neighbors_paginated:wrong-node-set", || (format!("neighbors_paginated(n{start}, type {:?}, {mode:?}, filter {}, skip 0, limit 1000) = {:?} (has_more {}), expected {:?} (engine ids)", ty.map(ty_str), fs.show(), pg.items.iter().map(|x| x.id).collect::<Vec<_>>(), pg.has_more, exp), q));
+                                }
+                            }
+                            Err(e) => gv.add("c18:neighbors_paginated:unexpected-error", || (format!("{e:?}"), q)),
+                        }
+                    }
                     // traverse
                     let d_all = bfs(n, &ar, start, &|_| true);
                     let d_blk = bfs(n, &ar, start, &|x| nok[x]);
@@ -738,6 +1070,61 @@ fn check_u(ctx: &mut Ctx, p: &Params, acc: &mut Acc, gv: &mut GV) {
         for &ty in &p.type_filters {
             let ar = arcs(&ctx.labels, mode, &type_ok(ctx, ty));
             for start in 0..n {
+                // ---- fixed one-hop pattern (s)-[e]-(t): exactly the hops that can be taken from s (graphs with <= 3 edges)
+                if ctx.labels.len() <= 3 {
+                    let mk_ep = || {
+                        let mut ep = EdgePattern::new().variable("e").direction(mode.dir());
+                        if let Some(t) = ty {
+                            ep = ep.edge_type(ty_str(t));
+                        }
+                        ep
+                    };
+                    let sp = || NodePattern::new().variable("s").where_eq("idx", PropertyValue::Int(start as i64));
+                    let pat = Pattern::new(PathPattern::new(sp(), mk_ep(), NodePattern::new().variable("t"))).limit(1_000_000);
+                    let exp: BTreeSet<(u64, u64)> = ar.iter().filter(|a| a.f == start).map(|a| (ctx.eids[a.e], ctx.nid[a.t])).collect();
+                    let desc = format!("match (s idx={start})-[e{} {mode:?}]-(t)", ty.map_or(String::new(), |t| format!(":{}", ty_str(t))));
+                    let q = json!({"call": "match_pattern", "pattern": format!("(s {{idx:{start}}})-[e{}]-(t)", ty.map_or(String::new(), |t| format!(":{}", ty_str(t)))), "direction": format!("{mode:?}")});
+                    // match_simple / count_pattern_matches / pattern_exists are thin wrappers: asked for the plain outgoing pattern only
+                    let wrappers = mode == Mode::Out && ty.is_none();
+                    acc.inc("match_pattern(one hop).queries", if wrappers { 4 } else { 1 });
+                    ctx.calls += if wrappers { 4 } else { 1 };
+                    let mut results = vec![ctx.eng.match_pattern(&pat)];
+                    if wrappers {
+                        results.push(ctx.eng.match_simple(sp(), mk_ep(), NodePattern::new().variable("t")));
+                    }
+                    for (which, res) in ["match_pattern", "match_simple"].iter().zip(results) {
+                        match res {
+                            Ok(r) => {
+                                let mut got: BTreeSet<(u64, u64)> = BTreeSet::new();
+                                let mut bad = false;
+                                for m in &r.matches {
+                                    match (m.bindings.get("s"), m.bindings.get("e"), m.bindings.get("t")) {
+                                        (Some(Binding::Node(s0)), Some(Binding::Edge(e)), Some(Binding::Node(t))) if s0.id == ctx.nid[start] => {
+                                            got.insert((e.id, t.id));
+                                        }
+                                        _ => bad = true,
+                                    }
+                                }
+                                if bad {
+                                    gv.add("c18:match_pattern:binding-inconsistent", || (format!("{which}: {desc}: a match lacks the node/edge bindings or binds another start node"), q.clone()));
+                                } else if got != exp || r.matches.len() != got.len() {
+                                    gv.add("c18:match_pattern:one-hop:wrong-match-set", || (format!("{which}: {desc} returns {} match(es) (edge id, end node id) {got:?}, expected {exp:?}", r.matches.len()), q.clone()));
+                                }
+                            }
+                            Err(e) => gv.add("c18:match_pattern:unexpected-error", || (format!("{which}: {desc}: {e:?}"), q.clone())),
+                        }
+                    }
+                    if wrappers {
+                        match ctx.eng.count_pattern_matches(&pat) {
+                            Ok(c) if c as usize == exp.len() => {}
+                            other => gv.add("c18:match_pattern:one-hop:count_pattern_matches", || (format!("count_pattern_matches: {desc} = {other:?}, expected {}", exp.len()), q.clone())),
+                        }
+                        match ctx.eng.pattern_exists(&pat) {
+                            Ok(b) if b == !exp.is_empty() => {}
+                            other => gv.add("c18:match_pattern:one-hop:pattern_exists", || (format!("pattern_exists: {desc} = {other:?}, expected {}", !exp.is_empty()), q.clone())),
+                        }
+                    }
+                }
                 let full = enum_walks(&ar, start, None, 0, p.hops, true, &|_| true);
                 for &(lo, hi) in &p.ranges {
                     let mut ep = EdgePattern::new().variable("p").direction(mode.dir()).variable_length(lo, hi);
@@ -869,6 +1256,32 @@ fn check_all_weighted(ctx: &mut Ctx, from: usize, to: usize, complete: bool, acc
     }
 }
 
+/// verdict on an A* answer for the variants that share no special-cased signature: None = fine
+fn judge_astar(ctx: &Ctx, res: Result<graph_engine::AStarResult, GraphError>, ar: &[Arc], w: &[f64], from: usize, to: usize, opt: f64) -> Option<(&'static str, String)> {
+    match res {
+        Err(e) => Some(("unexpected-error", format!("{e:?}"))),
+        Ok(r) => match r.path {
+            None => opt.is_finite().then(|| ("missed-path", format!("found no path but one of weight {opt} exists"))),
+            Some(pth) => {
+                let bad = if pth.nodes.first() != Some(&ctx.nid[from]) || pth.nodes.last() != Some(&ctx.nid[to]) { Some("wrong endpoints".to_string()) } else { walk_defect(ctx, ar, &pth.nodes, &pth.edges) };
+                if let Some(why) = bad {
+                    return Some(("not-a-walk", format!("= {} weight {}: {why}", ctx.show_walk(&pth.nodes, &pth.edges), pth.total_weight)));
+                }
+                let s = wsum(ctx, w, &pth.edges);
+                if (s - pth.total_weight).abs() > 1e-9 {
+                    Some(("total-weight-mismatch", format!("= {} claims weight {} but its edges sum to {s}", ctx.show_walk(&pth.nodes, &pth.edges), pth.total_weight)))
+                } else if s > opt + 1e-9 {
+                    Some(("not-optimal", format!("= {} weight {s} but a path of weight {opt} exists", ctx.show_walk(&pth.nodes, &pth.edges))))
+                } else if s < opt - 1e-9 {
+                    Some(("harness", "valid walk lighter than reference optimum".to_string()))
+                } else {
+                    None
+                }
+            }
+        },
+    }
+}
+
 fn check_w(ctx: &mut Ctx, p: &Params, acc: &mut Acc, gv: &mut GV) {
     let n = ctx.n;
     let all = vec![true; ctx.labels.len()];
@@ -877,6 +1290,7 @@ fn check_w(ctx: &mut Ctx, p: &Params, acc: &mut Acc, gv: &mut GV) {
     let safe = !zero_closed_walk(n, &ctx.labels);
     for from in 0..n {
         let dist = bellman(n, &ar, &w, from);
+        let hop_dist = bfs(n, &ar, from, &|_| true);
         for to in 0..n {
             let opt = st_opt(dist[to]);
             // ---- find_weighted_path
@@ -911,9 +1325,53 @@ fn check_w(ctx: &mut Ctx, p: &Params, acc: &mut Acc, gv: &mut GV) {
                     }
                 }
             }
+            // ---- find_weighted_path over a property no edge has: every edge weighs the documented default 1.0
+            if from != to && p.h_full && (ctx.labels.len() <= 2 || (n >= 4 && ctx.labels.len() <= 3)) {
+                let hops = hop_dist[to].map_or(f64::INFINITY, |d| d as f64);
+                let hops = st_opt(hops);
+                let res = ctx.eng.find_weighted_path(ctx.nid[from], ctx.nid[to], "no_such_property");
+                ctx.calls += 1;
+                acc.inc("find_weighted_path(missing property).queries", 1);
+                let q = json!({"call": "find_weighted_path", "from": from, "to": to, "weight_property": "no_such_property"});
+                match res {
+                    Err(GraphError::PathNotFound) => {
+                        if hops.is_finite() {
+                            gv.add("c18:find_weighted_path:missing-property:missed-path", || (format!("find_weighted_path(n{from}, n{to}, \"no_such_property\") = PathNotFound but a path of {hops} hop(s) exists"), q));
+                        }
+                    }
+                    Err(e) => gv.add("c18:find_weighted_path:unexpected-error", || (format!("{e:?}"), q)),
+                    Ok(pth) => {
+                        let bad = if pth.nodes.first() != Some(&ctx.nid[from]) || pth.nodes.last() != Some(&ctx.nid[to]) { Some("wrong endpoints".to_string()) } else { walk_defect(ctx, &ar, &pth.nodes, &pth.edges) };
+                        if let Some(why) = bad {
+                            gv.add("c18:find_weighted_path:missing-property:not-a-walk", || (format!("find_weighted_path(n{from}, n{to}, \"no_such_property\") = {}: {why}", ctx.show_walk(&pth.nodes, &pth.edges)), q));
+                        } else if pth.edges.len() as f64 > hops + 1e-9 || (pth.total_weight - pth.edges.len() as f64).abs() > 1e-9 {
+                            gv.add("c18:find_weighted_path:missing-property:not-optimal", || (format!("find_weighted_path(n{from}, n{to}, \"no_such_property\") = {} claimed weight {}; with every edge at the default weight 1.0 the minimum is {hops}", ctx.show_walk(&pth.nodes, &pth.edges), pth.total_weight), q));
+                        }
+                    }
+                }
+            }
             // ---- find_all_weighted_paths (in-process only when it provably terminates)
             if safe {
                 check_all_weighted(ctx, from, to, true, acc, gv);
+                // capped variant (max_paths 1, max_parents_per_node 1): a non-empty subset of the minimum-weight paths
+                if from != to && opt.is_finite() && p.h_full && (ctx.labels.len() <= 2 || (n >= 4 && ctx.labels.len() <= 3)) {
+                    let res = ctx.eng.find_all_weighted_paths(ctx.nid[from], ctx.nid[to], "weight", Some(AllPathsConfig { max_paths: 1, max_parents_per_node: 1 }));
+                    ctx.calls += 1;
+                    acc.inc("find_all_weighted_paths(capped).queries", 1);
+                    let q = json!({"call": "find_all_weighted_paths", "from": from, "to": to, "weight_property": "weight", "config": {"max_paths": 1, "max_parents_per_node": 1}});
+                    match res {
+                        Err(e) => gv.add("c18:find_all_weighted_paths:capped:missed-path", || (format!("find_all_weighted_paths(n{from}, n{to}, max_paths=1, max_parents_per_node=1) = {e:?} but a path of weight {opt} exists"), q)),
+                        Ok(r) => {
+                            let exp = optimal_simple(ctx, &ar, &w, from, to, opt);
+                            if r.paths.is_empty() || (r.total_weight - opt).abs() > 1e-9 {
+                                gv.add("c18:find_all_weighted_paths:capped:missed-path", || (format!("find_all_weighted_paths(n{from}, n{to}, max_paths=1, max_parents_per_node=1) returned {} path(s), total_weight {} but the minimum is {opt}", r.paths.len(), r.total_weight), q.clone()));
+                            }
+                            if let Some(x) = r.paths.iter().find(|x| !exp.contains(&(x.nodes.clone(), x.edges.clone()))) {
+                                gv.add("c18:find_all_weighted_paths:capped:extra-path", || (format!("find_all_weighted_paths(n{from}, n{to}, max_paths=1, max_parents_per_node=1) returns {} which is not a minimum-weight simple path", ctx.show_walk(&x.nodes, &x.edges)), q.clone()));
+                            }
+                        }
+                    }
+                }
             } else {
                 acc.inc("find_all_weighted_paths.skipped_in_process(zero-weight closed walk; see part D)", 1);
             }
@@ -936,6 +1394,59 @@ fn check_w(ctx: &mut Ctx, p: &Params, acc: &mut Acc, gv: &mut GV) {
                     }
             });
             let dstar: Vec<Vec<f64>> = (0..n).map(|x| bellman(n, &ar, &w, x)).collect();
+            // ---- option variants (h = 0 unless stated): unweighted(); default_weight(3.0); the euclidean / manhattan entry points
+            // (spaces with the full heuristic grid only: the large multiset spaces keep their budget for 3-edge graphs)
+            let small = ctx.labels.len() <= 2 || (n >= 4 && ctx.labels.len() <= 3); // the option variants: graphs with <= 2 edges (4 nodes: <= 3)
+            if p.h_full && small {
+                let ones = vec![1.0; ctx.labels.len()];
+                let w3: Vec<f64> = ctx.labels.iter().map(|l| if l.w == 2 { 3.0 } else { w_num(l.w) }).collect();
+                let any_absent = ctx.labels.iter().any(|l| l.w == 2);
+                for from in 0..n {
+                    let d1 = bellman(n, &ar, &ones, from);
+                    let d3 = bellman(n, &ar, &w3, from);
+                    for to in 0..n {
+                        if from == to {
+                            continue;
+                        }
+                        let mut variants: Vec<(&'static str, AStarConfig, &[f64], f64)> = vec![];
+                        let base = |c: AStarConfig| {
+                            let c = c.direction(mode.dir());
+                            match ty {
+                                Some(t) => c.edge_type(ty_str(t)),
+                                None => c,
+                            }
+                        };
+                        variants.push(("unweighted", base(AStarConfig::new().unweighted()), &ones, d1[to]));
+                        if any_absent && mode == Mode::Out {
+                            variants.push(("default-weight-3", base(AStarConfig::new().default_weight(3.0)), &w3, d3[to]));
+                        }
+                        for (name, cfg, wv, optv) in variants {
+                            let res = ctx.eng.astar_path(ctx.nid[from], ctx.nid[to], &cfg);
+                            ctx.calls += 1;
+                            acc.inc("astar_path(option variants).queries", 1);
+                            if let Some((kind, why)) = judge_astar(ctx, res, &ar, wv, from, to, st_opt(optv)) {
+                                let sig = if kind == "harness" { "c18:harness:reference-inconsistent".to_string() } else { format!("c18:astar:{name}:{kind}") };
+                                gv.add(&sig, || (format!("astar_path(n{from}, n{to}, {mode:?}, type {:?}, {name}) {why}", ty.map(ty_str)), json!({"call": "astar_path", "from": from, "to": to, "direction": format!("{mode:?}"), "edge_type": ty.map(ty_str), "variant": name})));
+                            }
+                        }
+                        if mode == Mode::Out && ty.is_none() {
+                            // node i sits at (i, 0): both heuristics estimate |i - to|; judged only where that never overestimates
+                            let admissible = (0..n).all(|x| !dstar[x][to].is_finite() || (x as f64 - to as f64).abs() <= dstar[x][to] + 1e-12);
+                            if admissible {
+                                let results = [("euclidean", ctx.eng.astar_path_euclidean(ctx.nid[from], ctx.nid[to], "x", "y")), ("manhattan", ctx.eng.astar_path_manhattan(ctx.nid[from], ctx.nid[to], "x", "y"))];
+                                ctx.calls += 2;
+                                acc.inc("astar_path_euclidean/manhattan.queries", 2);
+                                for (name, res) in results {
+                                    if let Some((kind, why)) = judge_astar(ctx, res, &ar, &w, from, to, st_opt(dstar[from][to])) {
+                                        let sig = if kind == "harness" { "c18:harness:reference-inconsistent".to_string() } else { format!("c18:astar:{name}:{kind}") };
+                                        gv.add(&sig, || (format!("astar_path_{name}(n{from}, n{to}, x, y) with node i at (i,0) (admissible here) {why}"), json!({"call": format!("astar_path_{name}"), "from": from, "to": to, "x_property": "x", "y_property": "y"})));
+                                    }
+                                }
+                            }
+                        }
+                    }
+                }
+            }
             for to in 0..n {
                 // admissible values per node: 0 or the true remaining cost (1000 where the goal is unreachable)
                 let choices: Vec<Vec<f64>> = (0..n)
@@ -1120,6 +1631,20 @@ fn check_s(ctx: &mut Ctx, p: &Params, acc: &mut Acc, gv: &mut GV) {
                 }
                 Err(e) => gv.add("c18:connected_components:unexpected-error", || (format!("{e:?}"), q)),
             }
+            if ty.is_none() {
+                // default configuration
+                let q = json!({"call": "connected_components", "config": null});
+                acc.inc("connected_components.calls", 1);
+                ctx.calls += 1;
+                match ctx.eng.connected_components(None) {
+                    Ok(r) => {
+                        if !same_partition(ctx, &r.communities, &comp) || r.community_count != ncomp {
+                            gv.add("c18:connected_components:wrong-partition", || (format!("connected_components(None) = {:?} (count {}), reference partition {comp:?}", r.communities, r.community_count), q));
+                        }
+                    }
+                    Err(e) => gv.add("c18:connected_components:unexpected-error", || (format!("{e:?}"), q)),
+                }
+            }
         }
         // ---- strongly connected components + condensation
         {
@@ -1186,6 +1711,33 @@ fn check_s(ctx: &mut Ctx, p: &Params, acc: &mut Acc, gv: &mut GV) {
                 }
                 Err(e) => gv.add("c18:scc:unexpected-error", || (format!("{e:?}"), q)),
             }
+            // default configuration (no condensation)
+            if ty.is_none() {
+                let mut cfg = SccConfig::new();
+                if let Some(t) = tys {
+                    cfg = cfg.edge_type(t);
+                }
+                let q = json!({"call": "strongly_connected_components", "edge_type": tys, "condensation": false});
+                acc.inc("strongly_connected_components.calls", 1);
+                ctx.calls += 1;
+                match ctx.eng.strongly_connected_components(&cfg) {
+                    Ok(r) => {
+                        let members_ok = r.members.len() == r.component_count && r.members.iter().enumerate().all(|(ci, ms)| ms.iter().all(|m| r.components.get(m) == Some(&ci))) && r.members.iter().map(Vec::len).sum::<usize>() == n;
+                        if !same_partition(ctx, &r.components, &scc) || r.component_count != c || !members_ok {
+                            gv.add("c18:scc:wrong-partition", || (format!("strongly_connected_components(type {tys:?}, no condensation) = {:?} (count {}), reference {scc:?}", r.components, r.component_count), q));
+                        }
+                    }
+                    Err(e) => gv.add("c18:scc:unexpected-error", || (format!("{e:?}"), q)),
+                }
+            }
+            if ty.is_none() && p.wrappers {
+                acc.inc("is_strongly_connected.calls", 1);
+                ctx.calls += 1;
+                match ctx.eng.is_strongly_connected() {
+                    Ok(b) if b == (c == 1) => {}
+                    other => gv.add("c18:scc:is_strongly_connected", || (format!("is_strongly_connected() = {other:?} but the graph has {c} strongly connected component(s)"), json!({"call": "is_strongly_connected"}))),
+                }
+            }
         }
         // ---- k-core (simple undirected projection)
         {
@@ -1230,6 +1782,24 @@ fn check_s(ctx: &mut Ctx, p: &Params, acc: &mut Acc, gv: &mut GV) {
                     }
                 }
                 Err(e) => gv.add("c18:kcore:unexpected-error", || (format!("{e:?}"), q)),
+            }
+            if p.wrappers {
+                let maxc = core.iter().copied().max().unwrap_or(0);
+                acc.inc("degeneracy.calls", 1);
+                ctx.calls += 1;
+                match ctx.eng.degeneracy(&cfg) {
+                    Ok(d) if d == maxc => {}
+                    other => gv.add("c18:kcore:degeneracy", || (format!("degeneracy(type {tys:?}) = {other:?}, reference core numbers {core:?}"), json!({"call": "degeneracy", "edge_type": tys}))),
+                }
+                for k in 0..=maxc + 1 {
+                    acc.inc("kcore_subgraph.calls", 1);
+                    ctx.calls += 1;
+                    let exp: BTreeSet<u64> = (0..n).filter(|&i| core[i] >= k).map(|i| ctx.nid[i]).collect();
+                    match ctx.eng.kcore_subgraph(k, &cfg) {
+                        Ok(v) if v.iter().copied().collect::<BTreeSet<u64>>() == exp && v.len() == exp.len() => {}
+                        other => gv.add("c18:kcore:kcore_subgraph", || (format!("kcore_subgraph({k}, type {tys:?}) = {other:?}, expected the nodes with core number >= {k}: {exp:?} (engine ids)"), json!({"call": "kcore_subgraph", "k": k, "edge_type": tys}))),
+                    }
+                }
             }
         }
         // ---- triangles and clustering (undirected view; default config only when every edge is undirected)
@@ -1283,6 +1853,14 @@ fn check_s(ctx: &mut Ctx, p: &Params, acc: &mut Acc, gv: &mut GV) {
                         }
                     }
                     Err(e) => gv.add("c18:triangles:unexpected-error", || (format!("{e:?}"), q.clone())),
+                }
+                if p.wrappers {
+                    acc.inc("global_clustering_coefficient.calls", 1);
+                    ctx.calls += 1;
+                    match ctx.eng.global_clustering_coefficient(&cfg) {
+                        Ok(v) if (v - global).abs() < 1e-12 => {}
+                        other => gv.add("c18:triangles:global-clustering-coefficient", || (format!("global_clustering_coefficient({name}, type {tys:?}) = {other:?}, expected {global}"), json!({"call": "global_clustering_coefficient", "config": name, "edge_type": tys}))),
+                    }
                 }
                 for i in 0..n {
                     acc.inc("local_clustering_coefficient.calls", 1);
@@ -1400,13 +1978,43 @@ fn check_s(ctx: &mut Ctx, p: &Params, acc: &mut Acc, gv: &mut GV) {
                 }
                 Err(e) => gv.add("c18:biconnected:unexpected-error", || (format!("{e:?}"), q)),
             }
+            if p.wrappers {
+                acc.inc("articulation_points.calls", 1);
+                acc.inc("bridges.calls", 1);
+                acc.inc("is_biconnected.calls", 1);
+                ctx.calls += 3;
+                match ctx.eng.articulation_points(&cfg) {
+                    Ok(v) if v.iter().copied().collect::<BTreeSet<u64>>() == art && v.len() == art.len() => {}
+                    other => gv.add("c18:biconnected:articulation-points", || (format!("articulation_points(type {tys:?}) = {other:?}, brute force (removal increases #components) = {art:?} (engine ids)"), json!({"call": "articulation_points", "edge_type": tys}))),
+                }
+                match ctx.eng.bridges(&cfg) {
+                    Ok(v) if v.iter().map(|(a, b)| norm(*a, *b)).collect::<BTreeSet<_>>() == bridges_multi && v.len() == bridges_multi.len() => {}
+                    other => {
+                        let proj = matches!(&other, Ok(v) if v.iter().map(|(a, b)| norm(*a, *b)).collect::<BTreeSet<_>>() == bridges_proj && v.len() == bridges_proj.len());
+                        gv.add(if proj { "c18:biconnected:bridges-ignore-parallel-edges" } else { "c18:biconnected:bridges" }, || (format!("bridges(type {tys:?}) = {other:?}, but removing one edge disconnects the graph only for {bridges_multi:?} (engine ids)"), json!({"call": "bridges", "edge_type": tys})))
+                    }
+                }
+                // textbook: a graph on >= 3 nodes is biconnected iff it is connected and has no articulation point; a
+                // disconnected graph never is (graphs on <= 2 nodes: conventions differ, not judged)
+                let exp = if ncomp > 1 { Some(false) } else if n >= 3 { Some(art.is_empty()) } else { None };
+                if let Some(exp) = exp {
+                    match ctx.eng.is_biconnected(&cfg) {
+                        Ok(b) if b == exp => {}
+                        other => {
+                            let isolated = (0..n).any(|i| deg[i] == 0);
+                            let sig = if exp == false && ncomp > 1 && isolated { "c18:biconnected:is_biconnected-true-on-disconnected-graph:isolated-nodes" } else if exp == false && ncomp > 1 { "c18:biconnected:is_biconnected-true-on-disconnected-graph" } else { "c18:biconnected:is_biconnected" };
+                            gv.add(sig, || (format!("is_biconnected(type {tys:?}) = {other:?}, expected {exp}: the undirected projection has {ncomp} connected component(s) and articulation points {art:?}"), json!({"call": "is_biconnected", "edge_type": tys})))
+                        }
+                    }
+                }
+            }
         }
     }
-    check_mst(ctx, acc, gv);
+    check_mst(ctx, acc, gv, p.wrappers);
 }
 
 // ---- minimum spanning tree / forest (all edges, direction ignored)
-fn check_mst(ctx: &mut Ctx, acc: &mut Acc, gv: &mut GV) {
+fn check_mst(ctx: &mut Ctx, acc: &mut Acc, gv: &mut GV, variants: bool) {
     let n = ctx.n;
     let w = weights(ctx);
     {
@@ -1508,11 +2116,17 @@ fn check_mst(ctx: &mut Ctx, acc: &mut Acc, gv: &mut GV) {
         } else {
             None
         };
-        let mut cfgs = vec![("forest", MstConfig::default())];
+        // (name, config, weight of each edge under that config, minimum forest weight, is the reference edge set usable)
+        let mut cfgs = vec![("forest", MstConfig::default(), w.clone(), best, true)];
         if ncomp == 1 {
-            cfgs.push(("tree(compute_forest=false)", MstConfig::default().compute_forest(false)));
+            cfgs.push(("tree(compute_forest=false)", MstConfig::default().compute_forest(false), w.clone(), best, true));
         }
-        for (name, cfg) in cfgs {
+        // a weight property no edge has and default_weight 2.0: every edge weighs 2, any spanning forest is minimal
+        let flat = st_opt(2.0 * (n - ncomp) as f64);
+        if variants {
+            cfgs.push(("forest(weight_property=no_such_property, default_weight=2.0)", MstConfig::new("no_such_property").default_weight(2.0), vec![2.0; ctx.labels.len()], flat, false));
+        }
+        for (name, cfg, w, best, use_unique) in cfgs {
             let q = json!({"call": "minimum_spanning_tree", "config": name});
             acc.inc("minimum_spanning_tree.calls", 1);
             ctx.calls += 1;
@@ -1551,7 +2165,7 @@ fn check_mst(ctx: &mut Ctx, acc: &mut Acc, gv: &mut GV) {
                         gv.add("c18:mst:tree-count", || (format!("minimum_spanning_tree({name}).tree_count = {} but the graph has {ncomp} connected component(s)", r.tree_count), q));
                     } else if (sum - r.total_weight).abs() > 1e-9 || (sum - best).abs() > 1e-9 {
                         gv.add("c18:mst:weight-not-minimal", || (format!("minimum_spanning_tree({name}) total_weight {} (edges sum {sum}); minimum spanning forest weight is {best}", r.total_weight), q));
-                    } else if let Some(exp) = &unique_set {
+                    } else if let (Some(exp), true) = (&unique_set, use_unique) {
                         let got: BTreeSet<u64> = r.edges.iter().map(|e| e.edge_id).collect();
                         if got != *exp {
                             gv.add("c18:mst:edge-set-differs", || (format!("minimum_spanning_tree({name}) edges {got:?} but with distinct weights the unique minimum spanning forest is {exp:?} (engine edge ids)"), q));
@@ -1614,91 +2228,167 @@ struct Space {
     /// true: every sequence (insertion order matters); false: multisets (non-decreasing label index)
     ordered: bool,
     params: Params,
+    /// the construction paths through which every graph of the space is built (the whole space is run once per build)
+    builds: Vec<Build>,
 }
-fn check_graph(part: Part, ctx: &mut Ctx, p: &Params, acc: &mut Acc) {
-    let mut gv = GV::default();
+fn run_part(part: Part, ctx: &mut Ctx, p: &Params, acc: &mut Acc, gv: &mut GV) {
     match part {
-        Part::U => check_u(ctx, p, acc, &mut gv),
-        Part::W => check_w(ctx, p, acc, &mut gv),
-        Part::S => check_s(ctx, p, acc, &mut gv),
-        Part::M => check_mst(ctx, acc, &mut gv),
+        Part::U => check_u(ctx, p, acc, gv),
+        Part::W => check_w(ctx, p, acc, gv),
+        Part::S => check_s(ctx, p, acc, gv),
+        Part::M => check_mst(ctx, acc, gv, false),
     }
+}
+/// signatures (with first message/query and count) the battery raises on `labels` built through `ctx`' construction path
+fn battery_on(part: Part, ctx: &mut Ctx, labels: &[EL], p: &Params, acc: &mut Acc) -> Result<GV, String> {
+    if let Err(why) = ctx.load(labels) {
+        // the engine holds something unknown now: start over with a new one
+        *ctx = Ctx::with_build(ctx.n, ctx.build, false);
+        return Err(why);
+    }
+    let mut gv = GV::default();
+    run_part(part, ctx, p, acc, &mut gv);
+    ctx.clear();
+    Ok(gv)
+}
+/// The battery on the graph held by `b`. A finding on an alternative construction path that the edge-by-edge build of
+/// the same graph shows as well is the same root cause and keeps its signature; one that only the alternative build
+/// shows is reported as `c18:built-via-<build>:<what>` (batch, if the plain batch build shows it too).
+fn check_graph(part: Part, b: &mut Bench, p: &Params, acc: &mut Acc) {
+    let labels = b.cur.clone();
+    let n = b.ctx.n;
     acc.inc("graphs", 1);
-    if ctx.labels.iter().any(|l| l.u == l.v) {
+    if labels.iter().any(|l| l.u == l.v) {
         acc.inc("graphs_with_self_loop", 1);
     }
-    if ctx.labels.iter().enumerate().any(|(i, a)| ctx.labels[..i].iter().any(|b| (a.u, a.v) == (b.u, b.v) || (a.u, a.v) == (b.v, b.u))) {
+    if labels.iter().enumerate().any(|(i, a)| labels[..i].iter().any(|b| (a.u, a.v) == (b.u, b.v) || (a.u, a.v) == (b.v, b.u))) {
         acc.inc("graphs_with_parallel_edges", 1);
     }
-    gv.flush(part.name(), ctx, acc);
+    if b.build == Build::Step {
+        let mut gv = GV::default();
+        run_part(part, &mut b.ctx, p, acc, &mut gv);
+        gv.flush(part.name(), n, &labels, Build::Step, acc);
+        return;
+    }
+    acc.inc(if b.build == Build::Batch { "graphs_built_via_batch_create_edges" } else { "graphs_built_via_churn(batch+update_edge+delete_edge+delete_node)" }, 1);
+    if labels.iter().any(|l| !l.dir) {
+        acc.inc("alt_built_graphs_with_undirected_edge", 1);
+    }
+    let build = b.build;
+    let mut out = GV::default();
+    if let Some(why) = b.ctx.node_defect.clone() {
+        out.add(&format!("c18:built-via-{}:stored-node-differs-from-request", build.tag()), || (format!("node set built via {}: {why}", build.name()), json!({"call": "get_node"})));
+    }
+    match battery_on(part, &mut b.ctx, &labels, p, acc) {
+        Err(why) => out.add(&format!("c18:built-via-{}:stored-edge-differs-from-request", build.tag()), || (format!("graph built via {}: {why}", build.name()), json!({"call": "get_edge"}))),
+        Ok(found) if found.m.is_empty() => {}
+        Ok(found) => {
+            // attribute: what does the edge-by-edge build (and, for churn, the plain batch build) of the same graph show?
+            let mut scratch = Acc::default();
+            let step = b.step_ref.get_or_insert_with(|| Ctx::new(n));
+            let on_step = battery_on(part, step, &labels, p, &mut scratch).expect("edge-by-edge build");
+            let on_batch = if build == Build::Churn {
+                let bc = b.batch_ref.get_or_insert_with(|| Ctx::with_build(n, Build::Batch, false));
+                battery_on(part, bc, &labels, p, &mut scratch).ok()
+            } else {
+                None
+            };
+            for (sig, (cnt, msg, q)) in found.m {
+                let filed = if sig.starts_with("c18:harness") || on_step.m.contains_key(&sig) {
+                    sig
+                } else if on_batch.as_ref().is_some_and(|g| g.m.contains_key(&sig)) {
+                    format!("c18:built-via-batch:{}", &sig["c18:".len()..])
+                } else {
+                    format!("c18:built-via-{}:{}", build.tag(), &sig["c18:".len()..])
+                };
+                out.m.insert(filed, (cnt, format!("[graph built via {}] {msg}", build.name()), q));
+            }
+        }
+    }
+    out.flush(part.name(), n, &labels, build, acc);
 }
-fn dfs(sp: &Space, ctx: &mut Ctx, last: usize, acc: &mut Acc) {
-    check_graph(sp.part, ctx, &sp.params, acc);
-    if ctx.labels.len() >= sp.max_edges {
+fn dfs(sp: &Space, b: &mut Bench, last: usize, acc: &mut Acc) {
+    check_graph(sp.part, b, &sp.params, acc);
+    if b.len() >= sp.max_edges {
         return;
     }
     let lo = if sp.ordered { 0 } else { last };
     for i in lo..sp.labels.len() {
-        ctx.push(sp.labels[i]);
-        dfs(sp, ctx, i, acc);
-        ctx.pop();
+        b.push(sp.labels[i]);
+        dfs(sp, b, i, acc);
+        b.pop();
     }
 }
+/// The harness' own worker pool. It is separate from rayon's global pool because the engine uses the global pool
+/// internally (batch_create_nodes with >= 100 inputs): a unit thread waiting for a global-pool job while every
+/// global worker waits for a unit thread would deadlock. Twice the core count: each worker mostly waits for its unit thread.
+fn pool() -> &'static rayon::ThreadPool {
+    static P: std::sync::OnceLock<rayon::ThreadPool> = std::sync::OnceLock::new();
+    P.get_or_init(|| {
+        let cores = std::thread::available_parallelism().map(|n| n.get()).unwrap_or(8);
+        let k = std::env::var("VERIF_THREADS").ok().and_then(|s| s.parse().ok()).unwrap_or((2 * cores).min(32));
+        rayon::ThreadPoolBuilder::new().num_threads(k).build().expect("worker pool")
+    })
+}
 fn run_space(sp: &Space) -> Acc {
-    // work units: the edgeless graph; each one-edge graph (alone); each two-edge prefix with everything below it.
+    // work units: the edgeless graph; each one-edge graph (alone); each two-edge prefix with everything below it; per build.
     // Each unit runs on its own OS thread so hash seeds (thread-local) do not depend on scheduling.
     let l = sp.labels.len();
-    let mut units: Vec<Vec<usize>> = vec![vec![]];
+    let mut prefixes: Vec<Vec<usize>> = vec![vec![]];
     if sp.max_edges >= 1 {
         for i in 0..l {
-            units.push(vec![i]);
+            prefixes.push(vec![i]);
             if sp.max_edges >= 2 && l * l <= 800 {
                 for j in (if sp.ordered { 0 } else { i })..l {
-                    units.push(vec![i, j]);
+                    prefixes.push(vec![i, j]);
                 }
             }
         }
     }
-    let results: Vec<Acc> = units
-        .par_iter()
-        .map(|u| {
-            std::thread::scope(|s| {
-                std::thread::Builder::new()
-                    .stack_size(32 << 20)
-                    .spawn_scoped(s, || {
-                        let mut acc = Acc::default();
-                        let mut ctx = Ctx::new(sp.n);
-                        for &i in u {
-                            ctx.push(sp.labels[i]);
-                        }
-                        if u.len() < 2 && (u.is_empty() || l * l <= 800) {
-                            check_graph(sp.part, &mut ctx, &sp.params, &mut acc);
-                        } else if u.len() < 2 {
-                            dfs(sp, &mut ctx, u[0], &mut acc);
-                        } else {
-                            dfs(sp, &mut ctx, u[1], &mut acc);
-                        }
-                        acc.inc("engine_calls", ctx.calls);
-                        acc
-                    })
-                    .expect("spawn unit thread")
-                    .join()
-                    .expect("unit thread panicked")
+    let units: Vec<(Build, &Vec<usize>)> = sp.builds.iter().flat_map(|b| prefixes.iter().map(move |u| (*b, u))).collect();
+    let results: Vec<Acc> = pool().install(|| {
+        units
+            .par_iter()
+            .map(|(build, u)| {
+                std::thread::scope(|s| {
+                    std::thread::Builder::new()
+                        .stack_size(32 << 20)
+                        .spawn_scoped(s, || {
+                            let mut acc = Acc::default();
+                            // the >= 100-input node batch (engine-internal parallel branch) once per space and build
+                            let mut b = Bench::new(sp.n, *build, u.is_empty());
+                            for &i in u.iter() {
+                                b.push(sp.labels[i]);
+                            }
+                            if u.len() < 2 && (u.is_empty() || l * l <= 800) {
+                                check_graph(sp.part, &mut b, &sp.params, &mut acc);
+                            } else if u.len() < 2 {
+                                dfs(sp, &mut b, u[0], &mut acc);
+                            } else {
+                                dfs(sp, &mut b, u[1], &mut acc);
+                            }
+                            acc.inc("engine_calls", b.calls());
+                            acc
+                        })
+                        .expect("spawn unit thread")
+                        .join()
+                        .expect("unit thread panicked")
+                })
             })
-        })
-        .collect();
+            .collect()
+    });
     let mut total = Acc::default();
     for r in results {
         total.merge(r);
     }
-    let mid = &units[units.len() / 2];
-    total.samples.push(json!({"space": sp.name, "nodes": sp.n, "a_graph_prefix_checked": mid.iter().map(|i| sp.labels[*i].show()).collect::<Vec<_>>()}));
+    let mid = &prefixes[prefixes.len() / 2];
+    total.samples.push(json!({"space": sp.name, "nodes": sp.n, "built_via": sp.builds.iter().map(|b| b.name()).collect::<Vec<_>>(), "a_graph_prefix_checked": mid.iter().map(|i| sp.labels[*i].show()).collect::<Vec<_>>()}));
     total
 }
 
 /// re-run the whole check of one graph on fresh engines; hash-iteration order inside the engine depends on
 /// thread-local hasher seeds, so several seed offsets are tried. Returns the offset that reproduces `sig`.
-fn confirm_fresh(sig: &str, part: Part, n: usize, ls: &[EL], p: &Params) -> Option<usize> {
+fn confirm_fresh(sig: &str, part: Part, n: usize, ls: &[EL], p: &Params, build: Build) -> Option<usize> {
     for off in 0..32usize {
         let hit = std::thread::scope(|s| {
             std::thread::Builder::new()
@@ -1706,9 +2396,12 @@ fn confirm_fresh(sig: &str, part: Part, n: usize, ls: &[EL], p: &Params) -> Opti
                 .spawn_scoped(s, || {
                     let warm: Vec<HashMap<u8, u8>> = (0..off).map(|_| HashMap::new()).collect();
                     std::hint::black_box(&warm);
-                    let mut ctx = Ctx::fresh(n, ls);
+                    let mut b = Bench::new(n, build, true);
+                    for l in ls {
+                        b.push(*l);
+                    }
                     let mut acc = Acc::default();
-                    check_graph(part, &mut ctx, p, &mut acc);
+                    check_graph(part, &mut b, p, &mut acc);
                     acc.arts.contains_key(sig)
                 })
                 .expect("spawn")
@@ -1858,7 +2551,7 @@ fn part_d(n: usize, labels: &[EL], max_edges: usize) -> Acc {
         }
     }
     rec(labels, max_edges, &mut vec![], n, &mut graphs);
-    let results: Vec<Acc> = graphs
+    let results: Vec<Acc> = pool().install(|| graphs
         .par_chunks(24)
         .map(|chunk| {
             let mut acc = Acc::default();
@@ -1882,7 +2575,7 @@ fn part_d(n: usize, labels: &[EL], max_edges: usize) -> Acc {
             }
             acc
         })
-        .collect();
+        .collect());
     let mut total = Acc::default();
     for r in results {
         total.merge(r);
@@ -1917,11 +2610,12 @@ fn params(part: Part, n: usize, thorough: bool, types: bool, light: bool) -> Par
         astar_modes: if light { vec![Mode::Out] } else { MODES.to_vec() },
         two_types: types,
         h_full: true,
+        wrappers: false,
     }
 }
 fn spaces(thorough: bool) -> Vec<Space> {
     let mut v = vec![];
-    let mk = |name: &str, part: Part, n: usize, labels: Vec<EL>, max_edges: usize, ordered: bool, types: bool, light: bool| Space { name: name.to_string(), part, n, labels, max_edges, ordered, params: params(part, n, thorough, types, light) };
+    let mk = |name: &str, part: Part, n: usize, labels: Vec<EL>, max_edges: usize, ordered: bool, types: bool, light: bool| Space { name: name.to_string(), part, n, labels, max_edges, ordered, params: params(part, n, thorough, types, light), builds: vec![Build::Step] };
     let t = thorough;
     let both = [true, false];
     // ---- U: unweighted queries. types A/B, directed/undirected, weight absent
@@ -1958,16 +2652,45 @@ fn spaces(thorough: bool) -> Vec<Space> {
         v.push(mk("W/n=3 two-type multisets", Part::W, 3, labels(3, &[0, 1], &[1, 3], &both), 2, false, true, false));
     }
     // ---- S: whole-graph algorithms
-    let s_combo = |n: usize| -> Vec<EL> {
-        // (type, weight) in {(A,1),(B,0),(A,5)}, directed and undirected, all ordered pairs incl. self-loops
+    let s_combo = |n: usize, combos: &[(u8, u8)]| -> Vec<EL> {
+        // (type, weight) combinations, directed and undirected, all ordered pairs incl. self-loops
         let mut l = vec![];
-        for &(ty, w) in &[(0u8, 1u8), (1, 0), (0, 3)] {
+        for &(ty, w) in combos {
             l.extend(labels(n, &[ty], &[w], &both));
         }
         l
     };
-    v.push(mk("S/n=3 multigraphs", Part::S, 3, s_combo(3), 3, false, true, false));
-    v.push(mk("S/n=4 multigraphs", Part::S, 4, s_combo(4), 2, false, true, false));
+    let combos3: &[(u8, u8)] = &[(0, 1), (1, 0), (0, 3)]; // (A,1) (B,0) (A,5.0)
+    // quick: the third combination (A,5.0) only on 4 nodes and in the simple-graph families
+    v.push(mk("S/n=3 multigraphs", Part::S, 3, s_combo(3, if t { combos3 } else { &combos3[..2] }), 3, false, true, false));
+    let mut s4 = mk("S/n=4 multigraphs", Part::S, 4, s_combo(4, combos3), 2, false, true, false);
+    s4.params.wrappers = t;
+    v.push(s4);
+
+    // ---- B: the same batteries on graphs put into the engine through the other construction paths
+    // (batch_create_nodes/batch_create_edges; churn = batch + batch_update_nodes + update_edge + delete_edge + delete_node of decoys)
+    let alt = |mut sp: Space, builds: &[Build]| -> Space {
+        sp.builds = builds.to_vec();
+        // every direction wherever the call takes one, also in the otherwise "light" grids
+        sp.params.var_modes = MODES.to_vec();
+        sp.params.astar_modes = MODES.to_vec();
+        sp
+    };
+    let all = &ALT_BUILDS[..];
+    let batch = &ALT_BUILDS[..1];
+    v.push(alt(mk(if t { "B/U n=2 two-type sequences" } else { "B/U n=2 two-type multisets" }, Part::U, 2, labels(2, &[0, 1], &[2], &both), 2, t, true, false), all));
+    v.push(alt(mk("B/U n=3 one-type multisets", Part::U, 3, labels(3, &[0], &[2], &both), 2, false, false, false), if t { all } else { batch }));
+    if t {
+        v.push(alt(mk("B/U n=4 loop-free one-type multisets", Part::U, 4, simple(4), 2, false, false, true), all));
+    }
+    v.push(alt(mk(if t { "B/W n=2 sequences 4 weights" } else { "B/W n=2 multisets 4 weights" }, Part::W, 2, labels(2, &[0], &[0, 1, 2, 3], &both), 2, t, false, false), all));
+    let mut bw3 = mk(if t { "B/W n=3 {0,1,5} multisets" } else { "B/W n=3 {1,5} multisets" }, Part::W, 3, labels(3, &[0], if t { &[0, 1, 3] } else { &[1, 3] }, &both), 2, false, false, false);
+    bw3.params.h_full = t;
+    v.push(alt(bw3, if t { all } else { batch }));
+    v.push(alt(mk("B/S n=3 multigraphs", Part::S, 3, s_combo(3, combos3), 2, false, true, false), if t { all } else { batch }));
+    if t {
+        v.push(alt(mk("B/S n=4 multigraphs", Part::S, 4, s_combo(4, combos3), 2, false, true, false), all));
+    }
     v
 }
 /// S2: every simple graph on n nodes, each present edge {i,j} (i<j) taking one of `kinds` shapes
@@ -1990,11 +2713,12 @@ fn simple_graph_space(n: usize, kinds: &[(bool, bool, u8, u8)]) -> Vec<Vec<EL>> 
     }
     out
 }
-fn run_simple_graphs(name: &str, n: usize, kinds: &[(bool, bool, u8, u8)], types: bool) -> Acc {
+fn run_simple_graphs(name: &str, n: usize, kinds: &[(bool, bool, u8, u8)], types: bool, build: Build, wrappers: bool) -> Acc {
     let graphs = simple_graph_space(n, kinds);
-    let p = params(Part::S, n, false, types, false);
+    let mut p = params(Part::S, n, false, types, false);
+    p.wrappers = wrappers;
     let chunks: Vec<&[Vec<EL>]> = graphs.chunks(64).collect();
-    let results: Vec<Acc> = chunks
+    let results: Vec<Acc> = pool().install(|| chunks
         .par_iter()
         .map(|chunk| {
             std::thread::scope(|s| {
@@ -2002,17 +2726,17 @@ fn run_simple_graphs(name: &str, n: usize, kinds: &[(bool, bool, u8, u8)], types
                     .stack_size(32 << 20)
                     .spawn_scoped(s, || {
                         let mut acc = Acc::default();
-                        let mut ctx = Ctx::new(n);
+                        let mut b = Bench::new(n, build, false);
                         for g in chunk.iter() {
                             for l in g {
-                                ctx.push(*l);
+                                b.push(*l);
                             }
-                            check_graph(Part::S, &mut ctx, &p, &mut acc);
-                            while !ctx.labels.is_empty() {
-                                ctx.pop();
+                            check_graph(Part::S, &mut b, &p, &mut acc);
+                            while b.len() > 0 {
+                                b.pop();
                             }
                         }
-                        acc.inc("engine_calls", ctx.calls);
+                        acc.inc("engine_calls", b.calls());
                         acc
                     })
                     .expect("spawn")
@@ -2020,12 +2744,12 @@ fn run_simple_graphs(name: &str, n: usize, kinds: &[(bool, bool, u8, u8)], types
                     .expect("chunk thread panicked")
             })
         })
-        .collect();
+        .collect());
     let mut total = Acc::default();
     for r in results {
         total.merge(r);
     }
-    total.samples.push(json!({"space": name, "graph_checked": graphs[graphs.len() / 2].iter().map(EL::show).collect::<Vec<_>>()}));
+    total.samples.push(json!({"space": name, "built_via": build.name(), "graph_checked": graphs[graphs.len() / 2].iter().map(EL::show).collect::<Vec<_>>()}));
     total
 }
 
@@ -2034,7 +2758,7 @@ fn run_simple_graphs(name: &str, n: usize, kinds: &[(bool, bool, u8, u8)], types
 /// Kruskal can meet the edges), each edge in both storage orientations (from,to)/(to,from); node names are
 /// canonical by first appearance (an edge's `from` before its `to`), and the whole family is run under two
 /// name -> node-id maps (ascending, descending) so ids are not tied to the order of appearance.
-fn run_mst_family(n: usize, max_m: usize, descending: bool, unit_depth: usize) -> Acc {
+fn run_mst_family(n: usize, max_m: usize, descending: bool, unit_depth: usize, build: Build) -> Acc {
     fn extend(n: usize, k: usize, used: &[(u8, u8)]) -> Vec<(u8, u8, usize)> {
         // (from, to, nodes in use afterwards)
         let mut out = vec![];
@@ -2067,24 +2791,24 @@ fn run_mst_family(n: usize, max_m: usize, descending: bool, unit_depth: usize) -
             used.pop();
         }
     }
-    fn rec(n: usize, max_m: usize, k: usize, used: &mut Vec<(u8, u8)>, ctx: &mut Ctx, map: &dyn Fn(u8) -> u8, acc: &mut Acc) {
-        check_graph(Part::M, ctx, &params(Part::M, n, false, false, false), acc);
-        if ctx.labels.len() >= max_m {
+    fn rec(n: usize, max_m: usize, k: usize, used: &mut Vec<(u8, u8)>, b: &mut Bench, map: &dyn Fn(u8) -> u8, acc: &mut Acc) {
+        check_graph(Part::M, b, &params(Part::M, n, false, false, false), acc);
+        if b.len() >= max_m {
             return;
         }
         for (u, v, k2) in extend(n, k, used) {
-            let wgt = 10 + ctx.labels.len() as u8 + 1;
-            ctx.push(EL { u: map(u), v: map(v), ty: 0, w: wgt, dir: false });
+            let wgt = 10 + b.len() as u8 + 1;
+            b.push(EL { u: map(u), v: map(v), ty: 0, w: wgt, dir: false });
             used.push((u.min(v), u.max(v)));
-            rec(n, max_m, k2, used, ctx, map, acc);
+            rec(n, max_m, k2, used, b, map, acc);
             used.pop();
-            ctx.pop();
+            b.pop();
         }
     }
     let depth = unit_depth.min(max_m);
     let mut units = vec![];
     prefixes(n, depth, 0, &mut vec![], &mut vec![], &mut units);
-    let results: Vec<Acc> = units
+    let results: Vec<Acc> = pool().install(|| units
         .par_iter()
         .map(|(pre, k, descend)| {
             std::thread::scope(|s| {
@@ -2093,18 +2817,18 @@ fn run_mst_family(n: usize, max_m: usize, descending: bool, unit_depth: usize) -
                     .spawn_scoped(s, || {
                         let map = |x: u8| if descending { n as u8 - 1 - x } else { x };
                         let mut acc = Acc::default();
-                        let mut ctx = Ctx::new(n);
+                        let mut b = Bench::new(n, build, false);
                         let mut used = vec![];
                         for (i, (u, v)) in pre.iter().enumerate() {
-                            ctx.push(EL { u: map(*u), v: map(*v), ty: 0, w: 10 + i as u8 + 1, dir: false });
+                            b.push(EL { u: map(*u), v: map(*v), ty: 0, w: 10 + i as u8 + 1, dir: false });
                             used.push((*u.min(v), *u.max(v)));
                         }
                         if *descend {
-                            rec(n, max_m, *k, &mut used, &mut ctx, &map, &mut acc);
+                            rec(n, max_m, *k, &mut used, &mut b, &map, &mut acc);
                         } else {
-                            check_graph(Part::M, &mut ctx, &params(Part::M, n, false, false, false), &mut acc);
+                            check_graph(Part::M, &mut b, &params(Part::M, n, false, false, false), &mut acc);
                         }
-                        acc.inc("engine_calls", ctx.calls);
+                        acc.inc("engine_calls", b.calls());
                         acc
                     })
                     .expect("spawn")
@@ -2112,13 +2836,13 @@ fn run_mst_family(n: usize, max_m: usize, descending: bool, unit_depth: usize) -
                     .expect("M unit thread panicked")
             })
         })
-        .collect();
+        .collect());
     let mut total = Acc::default();
     for r in results {
         total.merge(r);
     }
     let mid = &units[units.len() / 2].0;
-    total.samples.push(json!({"space": "M", "nodes": n, "a_graph_prefix_checked": mid.iter().enumerate().map(|(i, (u, v))| format!("n{u}--n{v} w={}", i + 1)).collect::<Vec<_>>()}));
+    total.samples.push(json!({"space": "M", "built_via": build.name(), "nodes": n, "a_graph_prefix_checked": mid.iter().enumerate().map(|(i, (u, v))| format!("n{u}--n{v} w={}", i + 1)).collect::<Vec<_>>()}));
     total
 }
 
@@ -2141,16 +2865,23 @@ fn replay_graph(rep: &mut Report, v: &Value, thorough: bool) {
             _ => Part::U,
         };
         // the engine's hash iteration order depends on thread-local seeds: try the same offsets as the confirmation step
-        let p = params(pt, n, thorough, true, false);
+        let mut p = params(pt, n, thorough, true, false);
+        p.wrappers = true;
         let mut seen = BTreeSet::new();
         for off in 0..32usize {
             let a = std::thread::scope(|s| {
                 s.spawn(|| {
                     let warm: Vec<HashMap<u8, u8>> = (0..off).map(|_| HashMap::new()).collect();
                     std::hint::black_box(&warm);
-                    let mut ctx = Ctx::fresh(n, &ls);
+                    // the graph through every construction path, each on fresh engines
                     let mut a = Acc::default();
-                    check_graph(pt, &mut ctx, &p, &mut a);
+                    for build in [Build::Step, Build::Batch, Build::Churn] {
+                        let mut b = Bench::new(n, build, true);
+                        for l in &ls {
+                            b.push(*l);
+                        }
+                        check_graph(pt, &mut b, &p, &mut a);
+                    }
                     a
                 })
                 .join()
@@ -2184,6 +2915,10 @@ fn main() {
     }
     rep.rule("graphs: DFS over edge sequences (ordered spaces) or edge multisets (others) of labelled edges (from,to incl. self-loops; type A|B; weight 0|1|absent|5.0; directed|undirected) on n fixed nodes, built in the real GraphEngine; per graph every query of the grid (all start/end pairs x filters x directions x hop ranges x admissible heuristics) is compared with brute force; non-trivial = the reference answer is a path of >=2 hops / a set of >=2 paths / a structure with >=2 classes");
     rep.rule("M (spanning trees): every sequence of <= m undirected edges over distinct node pairs of 6 (thorough also 7) nodes, the i-th edge weighing i — i.e. every edge set with every assignment of the distinct weights 1..m, hence every order in which Kruskal can meet the edges — each edge in both storage orientations; node names canonical by first appearance, run under an ascending and a descending name->id map");
+    rep.rule("B (construction paths): the same batteries on graphs put into the engine (i) by batch_create_nodes + one batch_create_edges call per graph (emptied with batch_delete_edges) and (ii) by a 'churn' path: node batch with decoy nodes (>= 100 inputs once per space = the engine's parallel branch) whose idx is set afterwards by batch_update_nodes and whose decoys go through batch_delete_nodes; edge batch holding the real edges with a placeholder weight (corrected by update_edge, removal via Null), a decoy twin per real edge (removed by delete_edge) and decoy edges to a create_node_with_labels hub (removed by batch_delete_nodes -> delete_node). Every multiset (thorough: sequence) of <= 2 labelled edges on 2-3 (thorough 4) nodes for U, W and S, one spanning-tree family, and (thorough) the simple-graph families; all three directions wherever the call takes one. A finding that the create_edge build of the same graph shows too keeps its signature, one that only the other build shows is c18:built-via-<batch|churn>:<what>");
+    rep.rule("entry points and options: find_path(filters) | find_all_paths(None, capped 1/1) | find_variable_paths(hops, Outgoing/Incoming/Both, edge_type, edge_types list, allow_cycles, filter, max_paths=1) | traverse(3 directions, depth 0..n, type, filter) | neighbors + neighbors_paginated(3 directions, type, filter) | match_pattern(*min..max, 3 directions, type) + fixed one-hop pattern, match_simple, count_pattern_matches, pattern_exists | find_weighted_path('weight', property no edge has) | find_all_weighted_paths(None, capped 1/1) | astar_path(3 directions, type, heuristics, unweighted, default_weight) + astar_path_euclidean/manhattan where admissible | connected_components(None, type) | strongly_connected_components(default, with_condensation, type), is_strongly_connected | minimum_spanning_tree(forest, tree, other weight property + default_weight), minimum_spanning_forest | kcore_decomposition, kcore_subgraph, degeneracy | count_triangles(undirected; default when all edges undirected), local/global_clustering_coefficient | biconnected_components, articulation_points, bridges, is_biconnected");
+    rep.assume("not judged (no definition in the property statement or ambiguous): edges_of/degree counters (adjacency primitives, not path queries), the deprecated entity-edge API (string keys, invisible to node-id queries), multi-hop fixed patterns (edge re-use semantics undefined), CommunityConfig.direction for connected_components, TriangleConfig::default on graphs with directed edges, is_biconnected on graphs with <= 2 nodes, pagerank/centrality/community/similarity scores, with_store/open_durable/recover (durability properties)");
+    rep.assume("after batch_delete_nodes of the hub/decoy nodes, delete_edge of the twins and update_edge of the weights the graph is exactly the labelled graph (documented behaviour of those calls)");
     rep.assume("M: minimum_spanning_tree does not depend on node ids beyond the two name->id maps tried (ascending/descending by first appearance in weight order)");
     rep.assume("filter predicate evaluation (TraversalFilter::matches_edge/matches_node) is trusted: the reference asks the engine's predicate which edges/nodes pass");
     rep.assume("an engine whose edges were deleted again behaves like a fresh one (every kept counterexample is re-confirmed on a fresh engine)");
@@ -2213,7 +2948,7 @@ fn main() {
         let g = a.c.get("graphs").copied().unwrap_or(0);
         graphs_total += g;
         eprintln!("[C18] {:<28} graphs={g:<8} calls={:<10} {:.1}s", sp.name, a.c.get("engine_calls").copied().unwrap_or(0), t.elapsed().as_secs_f64());
-        rep.part(&sp.name, json!({"nodes": sp.n, "edge_alphabet": sp.labels.len(), "max_edges": sp.max_edges, "ordered_sequences": sp.ordered, "max_hops": sp.params.hops, "graphs": g, "counters": a.c, "violating_queries_by_signature": a.sig_cases}));
+        rep.part(&sp.name, json!({"nodes": sp.n, "edge_alphabet": sp.labels.len(), "max_edges": sp.max_edges, "ordered_sequences": sp.ordered, "max_hops": sp.params.hops, "built_via": sp.builds.iter().map(|b| b.name()).collect::<Vec<_>>(), "graphs_x_builds": g, "counters": a.c, "violating_queries_by_signature": a.sig_cases}));
         total.merge(a);
     }
     // S2: all simple graphs
@@ -2222,41 +2957,53 @@ fn main() {
         let kinds3 = [(false, false, 0u8, 1u8), (true, false, 1, 0), (true, true, 0, 3)];
         let kinds1 = [(false, false, 0u8, 1u8)];
         let kinds2 = [(false, false, 0u8, 1u8), (true, false, 1, 3)];
-        let mut s2: Vec<(&str, usize, &[(bool, bool, u8, u8)], bool)> = vec![("S/all simple graphs n=4 x3 shapes", 4, &kinds3, true), ("S/all simple undirected graphs n=5", 5, &kinds1, false)];
+        // last field: the construction paths through which the whole family is built (one run per path)
+        let step: &[Build] = &[Build::Step];
+        let step_batch: &[Build] = &[Build::Step, Build::Batch];
+        let every: &[Build] = &[Build::Step, Build::Batch, Build::Churn];
+        let mut s2: Vec<(&str, usize, &[(bool, bool, u8, u8)], bool, &[Build])> = vec![("S/all simple graphs n=4 x3 shapes", 4, &kinds3, true, if thorough { step_batch } else { step }), ("S/all simple undirected graphs n=5", 5, &kinds1, false, if thorough { every } else { step })];
         if thorough {
-            s2.push(("S/all simple graphs n=5 x2 shapes", 5, &kinds2, true));
-            s2.push(("S/all simple undirected graphs n=6", 6, &kinds1, false));
+            s2.push(("S/all simple graphs n=5 x2 shapes", 5, &kinds2, true, step));
+            s2.push(("S/all simple undirected graphs n=6", 6, &kinds1, false, step));
         }
-        for (name, n, kinds, types) in s2 {
-            if !want(name) {
-                continue;
+        for (fam, n, kinds, types, builds) in s2 {
+            for &build in builds {
+                let name = if build == Build::Step { fam.to_string() } else { format!("B/{} via {}", &fam[2..], build.tag()) };
+                let name = name.as_str();
+                if !want(name) {
+                    continue;
+                }
+                let t = std::time::Instant::now();
+                // thin wrappers: quick on the undirected 5-node family, thorough also on the 4-node x3 family
+                let a = run_simple_graphs(name, n, kinds, types, build, (n == 5 && kinds.len() == 1) || (thorough && n == 4));
+                let g = a.c.get("graphs").copied().unwrap_or(0);
+                graphs_total += g;
+                eprintln!("[C18] {name:<28} graphs={g:<8} {:.1}s", t.elapsed().as_secs_f64());
+                rep.part(name, json!({"nodes": n, "graphs": g, "built_via": build.name(), "counters": a.c, "violating_queries_by_signature": a.sig_cases}));
+                total.merge(a);
             }
-            let t = std::time::Instant::now();
-            let a = run_simple_graphs(name, n, kinds, types);
-            let g = a.c.get("graphs").copied().unwrap_or(0);
-            graphs_total += g;
-            eprintln!("[C18] {name:<28} graphs={g:<8} {:.1}s", t.elapsed().as_secs_f64());
-            rep.part(name, json!({"nodes": n, "graphs": g, "counters": a.c, "violating_queries_by_signature": a.sig_cases}));
-            total.merge(a);
         }
     }
     // M: spanning trees on 6 (7) nodes, every Kruskal processing order
     {
-        let fam: Vec<(usize, usize, usize)> = if thorough { vec![(6, 6, 4), (7, 6, 4)] } else { vec![(6, 5, 3), (7, 5, 3)] };
-        for (n, m, depth) in fam {
-            for desc in [false, true] {
-                let name = format!("M/n={n} <={m} distinct-weight undirected edges, ids {}", if desc { "descending" } else { "ascending" });
-                if !want(&name) {
-                    continue;
-                }
-                let t = std::time::Instant::now();
-                let a = run_mst_family(n, m, desc, depth);
-                let g = a.c.get("graphs").copied().unwrap_or(0);
-                graphs_total += g;
-                eprintln!("[C18] {name:<28} graphs={g:<8} {:.1}s", t.elapsed().as_secs_f64());
-                rep.part(&name, json!({"nodes": n, "max_edges": m, "graphs": g, "counters": a.c, "violating_queries_by_signature": a.sig_cases}));
-                total.merge(a);
+        // (nodes, max edges, unit depth, descending ids, construction path)
+        let fam: Vec<(usize, usize, usize, bool, Build)> = if thorough {
+            vec![(6, 6, 4, false, Build::Step), (6, 6, 4, true, Build::Step), (7, 6, 4, false, Build::Step), (7, 6, 4, true, Build::Step), (6, 5, 3, false, Build::Batch), (6, 4, 3, true, Build::Churn)]
+        } else {
+            vec![(6, 5, 3, false, Build::Step), (6, 5, 3, true, Build::Step), (7, 5, 3, false, Build::Step), (7, 5, 3, true, Build::Step), (6, 4, 3, false, Build::Batch)]
+        };
+        for (n, m, depth, desc, build) in fam {
+            let name = format!("{}/n={n} <={m} distinct-weight undirected edges, ids {}{}", if build == Build::Step { "M" } else { "B/M" }, if desc { "descending" } else { "ascending" }, if build == Build::Step { String::new() } else { format!(" via {}", build.tag()) });
+            if !want(&name) {
+                continue;
             }
+            let t = std::time::Instant::now();
+            let a = run_mst_family(n, m, desc, depth, build);
+            let g = a.c.get("graphs").copied().unwrap_or(0);
+            graphs_total += g;
+            eprintln!("[C18] {name:<28} graphs={g:<8} {:.1}s", t.elapsed().as_secs_f64());
+            rep.part(&name, json!({"nodes": n, "max_edges": m, "graphs": g, "built_via": build.name(), "counters": a.c, "violating_queries_by_signature": a.sig_cases}));
+            total.merge(a);
         }
     }
     // D: zero-weight closed walks, in subprocesses
@@ -2288,7 +3035,10 @@ fn main() {
                     "M" => Part::M,
                     _ => Part::U,
                 };
-                match confirm_fresh(sig, pt, n, &ls, &params(pt, n, thorough, true, false)) {
+                let build = Build::from_tag(a.replay["build"].as_str().unwrap_or("step"));
+                let mut pp = params(pt, n, thorough, true, false);
+                pp.wrappers = true;
+                match confirm_fresh(sig, pt, n, &ls, &pp, build) {
                     Some(off) => replay["reproduced_on_fresh_engine_at_hash_seed_offset"] = json!(off),
                     None => rep.machinery(format!("violation {sig} found on a reused engine is not reproduced on a fresh engine: {}", a.replay)),
                 }
@@ -2314,7 +3064,13 @@ fn main() {
         rep.sample(s.clone());
     }
     rep.sample(json!({"graph": ["e1: n0->n1 :A w=5.0", "e2: n0->n1 :A w=1"], "query": "astar_path(n0,n1,Outgoing,h=0)", "reference": "minimum weight 1 via e2"}));
+    rep.sample(json!({"graph": ["e1: n0--n1 :A w absent"], "built_via": "batch_create_edges", "query": "traverse(n0, Incoming, depth 1)", "reference": "{n0, n1}"}));
     let no_path = total.c.get("find_path.no_path_answers").copied().unwrap_or(0);
+    let alt_graphs = total.c.get("graphs_built_via_batch_create_edges").copied().unwrap_or(0) + total.c.get("graphs_built_via_churn(batch+update_edge+delete_edge+delete_node)").copied().unwrap_or(0);
+    if only.is_none() && (alt_graphs < 1000 || total.c.get("graphs_built_via_churn(batch+update_edge+delete_edge+delete_node)").copied().unwrap_or(0) == 0 || total.c.get("alt_built_graphs_with_undirected_edge").copied().unwrap_or(0) < 100) {
+        rep.machinery("vacuous exploration: too few graphs built through batch_create_edges / the churn path, or none of them with an undirected edge");
+    }
+    rep.add("graphs_built_through_alternative_construction_paths", alt_graphs);
     if graphs_total < 1000 || total.c.get("nontrivial").copied().unwrap_or(0) < 1000 || no_path == 0 || total.c.get("graphs_with_self_loop").copied().unwrap_or(0) == 0 || total.c.get("graphs_with_parallel_edges").copied().unwrap_or(0) == 0 {
         rep.machinery("vacuous exploration: too few graphs / non-trivial answers / no 'no path' answers / no self-loops or parallel edges");
     }
